@@ -65,7 +65,10 @@ RULE = (
     "(b) one-loop thermal potential of a concrete EffectivePotentialNoResum subclass with 0-4 bosons and "
     "0-4 fermions, dof in [0, 30], m_i^2 = A_i + B_i phi^2, spectra massless / light / heavy / mixed / "
     "slightly negative / around zero / around the table ends, T over five decades as float, 0-d or per-point "
-    "array, 1-4 field points, direct or shipped-table integrals, all four imaginary-part options; (c) jCW. "
+    "array, 1-4 field points, direct or shipped-table integrals, all four imaginary-part options; (c) jCW; "
+    "(d) call histories on one Integrals() object (built directly or owned by a potential without tables): "
+    "probe arguments evaluated before and after a scan of 510-990 further arguments (more than the "
+    "adaptive-update threshold of InterpolatableFunction), the value must not change and must still be the integral. "
     "Non-trivial = argument is not a table abscissa (point cases) resp. at least one boson and one fermion "
     "with distinct masses (potential cases); distinct by canonical JSON of the case."
 )
@@ -1472,10 +1475,84 @@ def check_jcw(case, v: Verdict):
 
 
 # ---------------------------------------------------------------------------
+# ---------------------------------------------------------------------------
+# call histories on one Integrals() object (the object a potential without tables owns)
+# ---------------------------------------------------------------------------
+@st.composite
+def st_hist_case(draw):
+    """A long scan (more evaluations than InterpolatableFunction's adaptive-update threshold of 500) between two
+    evaluations of the same probe arguments, on the Integrals() object built by default / by a potential
+    constructed without tables.  The integral is a function of its argument: the scan must not change it."""
+    n = draw(st.integers(510, 900))
+    lo = draw(st.floats(-3.0, 1.0))
+    hi = draw(st.floats(1.5, 3.0))
+    neg = draw(st.sampled_from([0.0, 0.0, 5.0, 20.0]))
+    probes = [draw(st.floats(0.0, 1.0)) for _ in range(4)]
+    return {"kind": "hist", "via": draw(st.sampled_from(["integrals", "potential"])), "n": n, "lo": lo, "hi": hi,
+            "neg": neg, "probes": probes, "chunk": draw(st.sampled_from([1, 7, 64, 1000]))}
+
+
+def check_hist(case, v: Verdict):
+    from WallGo.PotentialTools import EffectivePotentialNoResum, EImaginaryOption, Integrals
+
+    if case["via"] == "integrals":
+        ints = Integrals()
+    else:
+        class P(EffectivePotentialNoResum):
+            fieldCount = 1
+            effectivePotentialError = 1e-8
+
+            def bosonInformation(self, fields, temperature=None):
+                return None
+
+            def fermionInformation(self, fields, temperature=None):
+                return None
+
+            def evaluate(self, fields, temperature):
+                return 0.0
+
+        pot = P(imaginaryOption=EImaginaryOption.PRINCIPAL_PART)   # the scan may contain negative mass^2
+        ints = pot.integrals
+    n, lo, hi = int(case["n"]), float(case["lo"]), float(case["hi"])
+    xs = 10.0 ** np.linspace(lo, hi, n)
+    if case["neg"] > 0:
+        xs = np.concatenate([-np.linspace(0.01, case["neg"], n // 10), xs])
+    px = np.array([10.0 ** (lo + u * (hi - lo)) for u in case["probes"]])
+    v.label("hist", f"via:{case['via']}", f"scan:{'neg+pos' if case['neg'] > 0 else 'pos'}", f"chunk:{case['chunk']}")
+    v.nontrivial = True
+    for fn in ("Jb", "Jf"):
+        J = getattr(ints, fn)
+        kind = fn[1]
+        before = np.array([np.ravel(np.asarray(J(float(x)), dtype=float)) for x in px])
+        ch = int(case["chunk"])
+        for i in range(0, len(xs), ch):
+            if case["via"] == "potential":
+                # the scan goes through the one-loop thermal potential (one boson + one fermion of mass^2 x at T = 1)
+                m = xs[i:i + ch][:, None]
+                one = np.array([1.0])
+                pot.potentialOneLoopThermal((m, one, one, one), (m, one, one, one), 1.0)
+            else:
+                J(xs[i:i + ch])
+        after = np.array([np.ravel(np.asarray(J(float(x)), dtype=float)) for x in px])
+        v.checked("hist-repeat")
+        v.checked("hist-direct")
+        for k, x in enumerate(px):
+            want = oracle(kind, float(x))
+            jabs = abs(want)
+            if not (np.array_equal(before[k], after[k])
+                    or np.max(np.abs(before[k] - after[k])) <= tol_quad(x, jabs, 0)):
+                v.fail("hist-repeat", f"{fn} via={case['via']}",
+                       f"{fn}({x!r}) = {before[k][0]!r} before and {after[k][0]!r} after {len(xs)} further evaluations on "
+                       f"the same Integrals() object (integral {want.real!r})", x=float(x))
+                break
+            _check_component(v, "hist-direct", fn, float(x), after[k], want, jabs, label_extra=" after-scan")
+
+
+
 def strategy(tier):
     # weights chosen from the measured label histogram (Hypothesis favours the structurally smaller branches)
-    return st.integers(0, 22).flatmap(
-        lambda k: st_point_case() if k < 20 else (st_pot_case() if k < 22 else st_jcw_case()))
+    return st.integers(0, 45).flatmap(
+        lambda k: st_point_case() if k < 40 else (st_pot_case() if k < 44 else (st_jcw_case() if k < 45 else st_hist_case())))
 
 
 def check_case(case) -> Verdict:
@@ -1492,6 +1569,8 @@ def check_case(case) -> Verdict:
         check_pot(case, v)
     elif kind == "jcw":
         check_jcw(case, v)
+    elif kind == "hist":
+        check_hist(case, v)
     else:
         raise ValueError(kind)
     return v
